@@ -948,7 +948,7 @@ type instr struct {
 }
 
 // genInstr generates one Apply instruction. bad requests an invalid one.
-func (g *gen) genInstr(f *hframe, cols []colInfo, bad bool) instr {
+func (g *gen) genInstr(f *hframe, cols []colInfo, bad bool, written map[string]bool) instr {
 	r := g.r
 	dst := g.r.Pick(legalNames)
 	if r.P(1, 3) && len(cols) > 0 {
@@ -1091,7 +1091,7 @@ func (g *gen) genInstr(f *hframe, cols []colInfo, bad bool) instr {
 			toks = append(toks, "-", "-", "c", tx.CInt(v))
 			break
 		}
-		if c.typ != "s" || !g.allValidUTF8(f, c) || !sameCol(f, c) {
+		if c.typ != "s" || !g.allValidUTF8(f, c) || !sameCol(f, c) || written[c.name] {
 			v := g.genInt()
 			in.Fn = v
 			toks = append(toks, "-", "-", "c", tx.CInt(v))
@@ -1147,8 +1147,10 @@ func (g *gen) genInstrs(f *hframe, bad bool) ([]qframe.Instruction, []string) {
 		badAt = g.r.Intn(k)
 	}
 	cols := f.cols
+	written := map[string]bool{}
 	for i := 0; i < k; i++ {
-		in := g.genInstr(f, cols, i == badAt)
+		in := g.genInstr(f, cols, i == badAt, written)
+		written[in.in.DstCol] = true
 		ins = append(ins, in.in)
 		toks = append(toks, in.toks...)
 		cols = applySchema(cols, in)
